@@ -588,7 +588,7 @@ pub fn check(tier: Tier) -> Report {
             _ => run_plan(&IPlan::decode(&mut Tape::new(&bytes), Tier::Quick)),
         }
     });
-    let (plans, encs) = if tier == Tier::Thorough { (30_000, 300_000) } else { (6000, 50_000) };
+    let (plans, encs) = if tier == Tier::Thorough { (40_000, 500_000) } else { (15_000, 150_000) };
     SHARDS_OVERRIDE.with(|s| s.set(Some(2)));
     let (stats, failure, _) = drive_opts(seed, plans, 400, &[], 60, 200, |b| {
         run_plan(&IPlan::decode(&mut Tape::new(b), tier))
@@ -607,7 +607,7 @@ pub fn check(tier: Tier) -> Report {
     #[cfg(feature = "hooks")]
     {
         let mut n = 0u64;
-        let reps = if tier == Tier::Thorough { 60 } else { 20 };
+        let reps = if tier == Tier::Thorough { 80 } else { 40 };
         for _ in 0..reps {
             for act in [BAct::InternKeep, BAct::InternDrop, BAct::InternDropVacuum, BAct::Vacuum, BAct::LookupOnly] {
                 for ty in [Ty::Str, Ty::Pt, Ty::U32, Ty::Wrap] {
